@@ -158,8 +158,10 @@ def shared_cache(cfg):
 def outcome_reordered(ab, cfg):
     """the same configuration as an OrderedDict with its keys (and the keys of its options / snippets / variables) in the opposite order"""
     import collections
+    import types
     def rev(d): return collections.OrderedDict(reversed(list(d.items())))
-    c = rev({k: (rev(v) if k in ('options', 'snippets', 'variables') and isinstance(v, dict) else v) for k, v in cfg.items()})
+    def ro(v): return types.MappingProxyType(dict(v)) if isinstance(v, dict) else tuple(v) if isinstance(v, list) else v          # table-valued options as read-only mappings
+    c = rev({k: (rev({k2: ro(v2) for k2, v2 in v.items()}) if k == 'options' and isinstance(v, dict) else rev(v) if k in ('snippets', 'variables') and isinstance(v, dict) else v) for k, v in cfg.items()})
     return outcome(ab, c)
 
 
